@@ -352,6 +352,9 @@ impl Future for ExSp {
 ///    2 T1 spawns T2 and parks; T2 finishes without waking: T1 stays parked, nothing runnable left;
 ///      an outside wake later finishes it
 ///    3 T1 spawns T2, wakes itself and finishes in the same poll (its queued id then finds no task)
+///    4 T1 parks; a LATER call (after an outside wake-up, the way `Core::resolve` arrives) resumes it from
+///      the ready queue and only then it spawns T2 and finishes: the round began with an empty spawn queue
+///    5 as 4, but T1 parks again after spawning T2
 fn run_all_case<const X: u8>() {
     let (exec, spawner) = new_executor();
     let (p1, p2, p3) = (Arc::new(Probe::default()), Arc::new(Probe::default()), Arc::new(Probe::default()));
@@ -360,6 +363,8 @@ fn run_all_case<const X: u8>() {
         0 => (SPAWN | PARK, READY, CHILD_WAKES_SLOT | SPAWN | READY),
         1 => (WAKE_SELF, SPAWN | READY, READY),
         3 => (SPAWN | WAKE_SELF | READY, READY, READY),
+        4 => (PARK, SPAWN | READY, READY),
+        5 => (PARK, SPAWN | PARK, READY),
         _ => (SPAWN | PARK, READY, READY),
     };
     spawner.spawn(ExSp { p0, p1: p1b, probe: p1.clone(), child_probe: p2.clone(), grandchild_probe: p3.clone(), slot: slot.clone(), spawner: spawner.clone(), child_p0 });
@@ -379,6 +384,19 @@ fn run_all_case<const X: u8>() {
             assert!(p1.polls() == 1 && p1.dropped(), "parent finished");
             assert!(p2.polls() == 1 && p2.dropped() && exec.live_tasks() == 0, "the task spawned by a task whose stale wake-up finds nothing ran in the same call");
         }
+        4 | 5 => {
+            assert!(p1.polls() == 1 && p2.polls() == 0 && exec.live_tasks() == 1, "parked, nothing spawned yet");
+            slot.take().expect("parked").wake();
+            exec.run_all(); // ONE call, entered with an empty spawn queue
+            assert!(exec.spawn_len() == 0, "a task spawned by a task resumed from the ready queue is not left waiting when run_all returns");
+            assert!(exec.ready_len() == 0, "no runnable task is left behind when run_all returns");
+            assert!(p1.polls() == 2 && p2.polls() == 1 && p2.dropped(), "the resumed task and the task it spawned both ran in the same call");
+            if X == 4 {
+                assert!(p1.dropped() && exec.live_tasks() == 0, "all finished");
+            } else {
+                assert!(!p1.dropped() && exec.live_tasks() == 1, "parent parked again");
+            }
+        }
         _ => {
             assert!(p1.polls() == 1 && p2.polls() == 1 && !p1.dropped() && p2.dropped(), "child ran, parent parked");
             assert!(exec.live_tasks() == 1, "one live task");
@@ -395,6 +413,8 @@ fn run_all_case<const X: u8>() {
     nd_cover!(X == 1, "self-wake then spawn");
     nd_cover!(X == 2, "parent parked, child finished");
     nd_cover!(X == 3, "spawn, self-wake and finish in one poll");
+    nd_cover!(X == 4, "resumed from the ready queue, then spawns and finishes");
+    nd_cover!(X == 5, "resumed from the ready queue, then spawns and parks again");
     std::mem::forget((exec, spawner, p1, p2, p3, slot));
 }
 
@@ -403,4 +423,11 @@ fn run_all_case<const X: u8>() {
 pub fn c01_run_all_quiescent() {
     let x = nd::any_u8();
     dispatch!(x, run_all_case, 0 1 2 3);
+}
+
+#[cfg_attr(kani, kani::proof, kani::unwind(7))]
+#[cfg_attr(kani, kani::stub(core::mem::MaybeUninit::write, crate::common::maybe_uninit_write))]
+pub fn c01_run_all_resumed_spawns() {
+    let x = nd::any_u8();
+    dispatch!(x, run_all_case, 4 5);
 }
